@@ -40,25 +40,26 @@ def check(model: Model, run: Run) -> None:
     if fi is None:
         raise AnalysisError("LDAPSession.receive not found")
     mr.escapes(fi.qualname, None)
-    hs = wait_handlers(model, fi)
+    from ..regions import decode_region
+    region = decode_region(model)
+    run.coverage["decode_region"] = [r.fi.qualname for r in region]
+    hs = [(rf, t, h) for rf in region for t, h in wait_handlers(model, rf.fi)]
     run.floor("wait handlers in receive", len(hs), 1)
-    # stream-level readers: locals of receive bound to ASN1Reader(...)
-    stream_locals = set()
-    for n in walk_no_nested(fi.node):
-        if isinstance(n, ast.Assign) and isinstance(n.value, ast.Call) and model.resolve_name(fi.module, norm(n.value.func)) == "sansldap.asn1.ASN1Reader":
-            for t in n.targets:
-                if isinstance(t, ast.Name):
-                    stream_locals.add(t.id)
-    run.coverage["stream_readers"] = sorted(stream_locals)
-    ctx = {"fi": fi, "self_cls": None, "key": (fi.qualname, None), "caught": frozenset(), "handler_var": None}
+    run.coverage["stream_readers"] = sorted({f"{rf.fi.name}:{x}" for rf in region for x in rf.readers})
     total = 0
-    for t, h in hs:
+    for rf, t, h in hs:
+        f2 = rf.fi
+        mr.escapes(f2.qualname, None)
+        ctx = {"fi": f2, "self_cls": None, "key": (f2.qualname, None), "caught": frozenset(), "handler_var": None}
+        ps = f2.params()
+        off = 1 if f2.cls and not f2.is_staticmethod else 0
+        good_provs = {f"local:{x}" for x in rf.readers} | {f"param:{ps.index(x) - off}" for x in rf.readers if x in ps}
         escs = mr.block(t.body, ctx)
         mr.fixpoint()
         escs = mr.block(t.body, ctx)
         ne = [e for e in escs if e.exc == NOT_ENOUGH]
         total += len(ne)
-        bad = [e for e in ne if not (e.prov.startswith("local:") and e.prov[6:] in stream_locals)]
+        bad = [e for e in ne if e.prov not in good_provs]
         for e in ne:
             ok = e not in bad
             run.ob("Q1-wait-handler-provenance", ok, {"origin": e.short(), "provenance": e.prov})
@@ -68,10 +69,10 @@ def check(model: Model, run: Run) -> None:
                 groups.setdefault(e.prov, []).append(e)
             for prov, es in groups.items():
                 e0 = sorted(es, key=lambda e: (e.func, e.line))[0]
-                run.fail(Finding("Q1-wait-handler-provenance", fi.qualname, f"handler@{norm(h.type)}|prov={prov}|n={len(es)}",
+                run.fail(Finding("Q1-wait-handler-provenance", f2.qualname, f"handler@{norm(h.type)}|prov={prov}|n={len(es)}",
                                  f"{len(es)} NotEnougData origin(s) raised on a reader that is not the stream-level reader ({prov}) reach the 'wait for more bytes' "
-                                 f"handler `except {norm(h.type)}` in receive: the envelope has already been consumed, so the PDU would be dropped silently. "
-                                 f"e.g. {e0.short()}", model.loc(fi.module, h), [x.short() for x in sorted(es, key=lambda e: (e.func, e.line))[:12]]))
+                                 f"handler `except {norm(h.type)}` in {f2.name}: the envelope has already been consumed, so the PDU would be dropped silently. "
+                                 f"e.g. {e0.short()}", model.loc(f2.module, h), [x.short() for x in sorted(es, key=lambda e: (e.func, e.line))[:12]]))
     run.floor("NotEnougData origins reaching wait handlers", total, 3)
     # what the stream-level reader may be asked to do
     methods, escapes = stream_reader_uses(model)
@@ -84,7 +85,7 @@ def check(model: Model, run: Run) -> None:
     lemma_no_consume_on_failure(model, run, "C06")
     # any other handler on the receive path that swallows NotEnougData must obey the same provenance rule
     for fq, f2 in list(model.functions.items()):
-        if f2 is fi or isinstance(f2.node, ast.Lambda) or (fq, None) not in mr.summ:
+        if f2 is fi or any(r.fi is f2 for r in region) or isinstance(f2.node, ast.Lambda) or (fq, None) not in mr.summ:
             continue
         for t2, h2 in wait_handlers(model, f2):
             locals2 = set()
